@@ -2084,6 +2084,9 @@ Error Assembler::_emit(InstId inst_id, const Operand_& o0, const Operand_& o1, c
         if (!check_signature(o0, o1, o2))
           goto InvalidInstruction;
 
+        if (!check_gp_id(o0, o1, o2, kZR))
+          goto InvalidPhysId;
+
         opcode.reset(op_data.register_op);
         opcode.add_imm(x, 31);
         opcode.add_reg(o2, 16);
@@ -2099,6 +2102,9 @@ Error Assembler::_emit(InstId inst_id, const Operand_& o0, const Operand_& o1, c
 
         if (!check_signature(o0, o1))
           goto InvalidInstruction;
+
+        if (!check_gp_id(o0, o1, kZR))
+          goto InvalidPhysId;
 
         uint64_t imm = o2.as<Imm>().value_as<uint64_t>();
 
